@@ -178,6 +178,18 @@ def check_segseg(ctx, case):
         ctx.violation(f"C14:segseg:point-t-not-at-relpos:{kind}", case, f"pt={pt!r}, t(u_t)={pte!r}")
     if not abs(rg.gc_dist(pf, pt) - dd) <= 2 * tol:
         ctx.violation(f"C14:segseg:points-do-not-realise-distance:{kind}", case, f"|pf-pt|={rg.gc_dist(pf, pt)!r} vs {dd!r}")
+    # invariance under swapping the end points of either segment (u -> 1-u); closest points of (nearly) parallel
+    # segments are not unique, so positions are only compared when the reference says the minimum is attained at an end
+    for which, args in (("f", (b, a, c, d)), ("t", (a, b, d, c))):
+        try:
+            d2, pf2, pt2, uf2, ut2 = dl.distance_segment_to_segment(*args)
+        except Exception as e:
+            ctx.violation(f"C14:segseg:raises-{type(e).__name__}:swapped", case, repr(e))
+            continue
+        ctx.count("segseg_swap_judged")
+        if not abs(d2 - dd) <= 2 * tol:
+            ctx.violation(f"C14:segseg:not-invariant-under-endpoint-swap:{which}:{kind}", case,
+                          f"distance {dd!r} vs {d2!r} after swapping the end points of segment {which} (tol {2 * tol:.3f})")
 
 
 def box_bearings(lat, r):
